@@ -57,6 +57,11 @@ pub fn record_parse(opts: &Opts) -> i32 {
                 let lead = rng.below(3);
                 for _ in 0..lead { words.push(rand_option(&mut rng)); }
                 words.push(rand_expr_text(&mut rng, d, false));
+                if rng.chance(1, 6) {
+                    // a long expression (more than 64 tokens) with an option near its end
+                    for k in 0..(35 + rng.below(30)) { words.push(format!("-name a{} -o", k)); }
+                    words.push("-true".to_string());
+                }
                 if rng.chance(1, 2) { words.push(rand_option(&mut rng)); }
                 if rng.chance(1, 3) { words.push(rand_primary(&mut rng)); }
                 words.join(" ")
@@ -90,6 +95,18 @@ pub fn record_parse(opts: &Opts) -> i32 {
         };
         let obs = run_parse(&input);
         emit(&mut out, &json!({"i": cps(&input), "obs": parse_out_json(&obs)}));
+        // a RELATED input right after (the same text with the blanks inside a quoted argument changed, a
+        // letter in another case, a quote style swapped): defects that remember the previous call
+        if rng.chance(1, 5) {
+            let rel = match rng.below(4) {
+                0 => input.replace("' ", "'  ").replace(" '", "  '"),
+                1 => { let q = format!("{} -name 'a b'", input); let r = format!("{} -name 'a  b'", input); let o1 = run_parse(&q); emit(&mut out, &json!({"i": cps(&q), "obs": parse_out_json(&o1)})); r }
+                2 => input.replacen('\'', "\"", 2),
+                _ => input.replacen(' ', "\t", 1),
+            };
+            let o2 = run_parse(&rel);
+            emit(&mut out, &json!({"i": cps(&rel), "obs": parse_out_json(&o2)}));
+        }
     }
     0
 }
@@ -108,13 +125,22 @@ fn paths_of(opts: &Opts) -> Vec<String> {
     match opts.get("paths") {
         None => vec!["/".to_string()],
         Some("hostile") => vec!["/".into(), "/dev/mdt0".into(), "/mnt/a b".into(), "q\"x".into(), "q\\\"x".into(), "b\\s".into(), "b\\\\s".into(),
-                                "trail\\".into(), "c\u{1}d".into(), "c\\x01d".into(), "é~;(\u{2028}".into(), "/".into()],
+                                "trail\\".into(), "c\u{1}d".into(), "c\\x01d".into(), "é~;(\u{2028}".into(), "/dev/mdt1".into(), "/dev/mdt2".into(),
+                                "/".into(), "/dev/mdt0".into(), "q\"x".into()],
         Some(p) => p.split(',').map(|s| s.to_string()).collect(),
     }
 }
 
 /// record-compile --count N --seed S --size K [--unsupported] [--exotic] [--hostile]
+/// Compile an expression with a time test, then let the clock move on: anything the library keeps from
+/// its first compilation (a cached "now") is then stale for everything recorded afterwards.
+fn warm_up_and_tick() {
+    if let ParseOut::Ok(o, t) = run_parse("-mmin 1 -o -atime +1") { let _ = run_compile(&t, &o, &["/".to_string()]); }
+    std::thread::sleep(std::time::Duration::from_millis(1100));
+}
+
 pub fn record_compile(opts: &Opts) -> i32 {
+    if opts.get("no-warmup").is_none() { warm_up_and_tick(); }
     let seed = opts.num("seed", 1);
     let count = opts.num("count", 100);
     let size = opts.num("size", 6) as usize;
@@ -138,6 +164,7 @@ pub fn record_compile(opts: &Opts) -> i32 {
 /// compile-trees: trees printed by TLC on stdin ({"t": tree, "o": opts?, ...}) are built
 /// through the public constructors, compiled, and logged with everything TLC sent.
 pub fn compile_trees(opts: &Opts) -> i32 {
+    if opts.get("warmup").is_some() { warm_up_and_tick(); }
     let paths = paths_of(opts);
     let stdin = std::io::stdin();
     let out = std::io::stdout();
@@ -288,6 +315,23 @@ pub fn total_corpus(rng: &mut Rng, count: usize) -> Vec<String> {
                 words.push(tail.to_string());
                 v.push(words.join(" "));
             }
+            5 if rng.chance(1, 3) => {
+                // long FLAT sentences: hundreds of negations / groups / operators without deep nesting, and a
+                // scan-wide option far behind (token index beyond 64)
+                let n = 65 + rng.below(400);
+                let mut words: Vec<String> = vec![];
+                for k in 0..n {
+                    let prim = ["-true", "-name x", "-print", "-false"][rng.below(4)];
+                    let neg = if rng.chance(2, 3) { "! " } else { "" };
+                    let grp = rng.chance(1, 8);
+                    words.push(if grp { format!("( {}{} )", neg, prim) } else { format!("{}{}", neg, prim) });
+                    if k + 1 < n { words.push(["-o", "-a", ",", ""][rng.below(4)].to_string()); }
+                }
+                if rng.chance(1, 2) { let at = words.len() - rng.below(6); words.insert(at.min(words.len()), ["-depth", "-threads 7"][rng.below(2)].to_string()); }
+                let mut s = words.into_iter().filter(|w| !w.is_empty()).collect::<Vec<_>>().join(" ");
+                if s.len() > 4096 { s.truncate(4096); while !s.ends_with(' ') && !s.is_empty() { s.pop(); } s.push_str("-true"); }
+                v.push(s);
+            }
             5 => {
                 // long inputs up to 4 KiB
                 let mut s = String::new();
@@ -295,6 +339,15 @@ pub fn total_corpus(rng: &mut Rng, count: usize) -> Vec<String> {
                 s.push_str("-print");
                 s.truncate(4096);
                 v.push(s);
+            }
+            6 if rng.chance(1, 5) => {
+                // the same file as destination of actions of different kinds / twice the same / related spellings
+                let f = rand_word(rng);
+                let k1 = ["-fprint", "-fprint0", "-fprintf"][rng.below(3)];
+                let k2 = ["-fprint", "-fprint0", "-fprintf"][rng.below(3)];
+                let a = |k: &str, f: &str| if k == "-fprintf" { format!("{} {} '%p\\n'", k, f) } else { format!("{} {}", k, f) };
+                let g = if rng.chance(1, 2) { f.clone() } else { rand_word(rng) };
+                v.push(format!("{} {} {}", a(k1, &f), ["", "-o", ",", "-name x -o"][rng.below(4)], a(k2, &g)));
             }
             6 => {
                 if rng.chance(1, 2) { v.push(rand_numeric_primary(rng)); }
@@ -323,7 +376,12 @@ pub fn record_total(opts: &Opts) -> i32 {
     let count = opts.num("count", 1000) as usize;
     let full = opts.get("full").is_some();
     let mut rng = Rng(seed ^ 0x5eed_0004);
-    let corpus = total_corpus(&mut rng, count);
+    let mut corpus = total_corpus(&mut rng, if opts.get("only").is_some() { count * 40 } else { count });
+    if opts.get("only") == Some("flat") {
+        // only the long flat sentences (C01: acceptance class of long inputs)
+        corpus.retain(|s| s.len() > 300 && (s.contains("! -") || s.contains("( ")) && !s.contains("-fprint") && !s.contains("-uid") && !s.contains("n1 "));
+        corpus.truncate(count);
+    }
     let out = std::io::stdout();
     let mut out = out.lock();
     let paths = vec!["/".to_string()];
@@ -370,6 +428,31 @@ pub fn record_tree(opts: &Opts) -> i32 {
     let mut out = out.lock();
     for k in 0..count {
         let sz = 1 + rng.below(size);
+        if k % 17 == 5 {
+            // deep spines (right-nested, left-nested, chains of Not / Precedence) with ONE action at the bottom
+            use lipe_find_parser::ast::{Action, Expression as E, Operator, Test};
+            use std::rc::Rc;
+            let depth = 20 + rng.below(90);
+            let bottom = match rng.below(5) { 0 => E::Action(Action::Print), 1 => E::Action(Action::PrintNull), 2 => E::Action(Action::FilePrint("o".into())),
+                                              3 => E::Test(Test::True), _ => E::Action(Action::Quit) };
+            let mut t = bottom;
+            let shape = rng.below(5);
+            for _ in 0..depth {
+                let leaf = E::Test(Test::True);
+                t = E::Operator(Rc::new(match (shape, rng.below(3)) {
+                    (0, 0) => Operator::And(leaf, t), (0, 1) => Operator::Or(leaf, t), (0, _) => Operator::List(leaf, t),
+                    (1, 0) => Operator::And(t, leaf), (1, 1) => Operator::Or(t, leaf), (1, _) => Operator::List(t, leaf),
+                    (2, _) => Operator::Not(t), (3, _) => Operator::Precedence(t),
+                    (_, 0) => Operator::And(leaf, t), (_, 1) => Operator::Not(t), (_, _) => Operator::Or(t, leaf),
+                }));
+            }
+            let tj = expr_to_json(&t);
+            match guarded(&json!({"deep": depth}), || (t.action(), t.complex_frames())) {
+                Ok((a, f)) => emit(&mut out, &json!({"t": tj, "st": "ok", "action": a, "framed": f})),
+                Err(m) => emit(&mut out, &json!({"t": tj, "st": "panic", "msg": cps(&m), "action": false, "framed": false})),
+            }
+            continue;
+        }
         let t = if k % 3 == 0 { rand_tree(&mut rng, sz, &TreeProfile { kind: "actions".into(), ..TreeProfile { unsupported: false, exotic: false, hostile_strings: false, no_direct: false, kind: String::new() } }) } else { rand_tree(&mut rng, sz, &p) };
         let tj = expr_to_json(&t);
         match guarded(&tj, || (t.action(), t.complex_frames())) {
